@@ -145,5 +145,8 @@ def load(crate, config="default"):
     if key not in _loaded:
         d = ensure(config)
         with open(os.path.join(d, crate + ".json")) as fh:
-            _loaded[key] = json.load(fh)
+            txt = fh.read()
+        # rustc prints `core` items through whatever re-export is visible from the crate; canonicalise
+        txt = txt.replace("bitflags::__private::core::", "core::")
+        _loaded[key] = json.loads(txt)
     return _loaded[key]
